@@ -85,3 +85,10 @@ def run(ctx):
         return f
 
     ctx.campaign("main", gen.programs(cfg), oracle, max_examples=ctx.n(600, 32000))
+    # expression focus: short chains of row-wise extends / filters, i.e. many scalar expressions per program - the
+    # PostgreSQL model has formatters of its own (%/%, logarithms, string functions) that only expressions reach
+    ecfg = dict(cfg)
+    ecfg.update({"shape": None, "concat_perm_prob": 0, "max_nodes": 4, "min_steps": 2, "n_tables": (1, 1), "final_order": 0.1,
+                 "ops": {"extend": 12, "select_rows": 4, "project": 1, "window": 1, "natural_join": 0, "concat_rows": 0, "convert_records": 0,
+                         "ordered_window": 0, "order_rows": 0, "drop_columns": 0.5, "select_columns": 0.5, "rename_columns": 0, "map_columns": 0}})
+    ctx.campaign("expr_focus", gen.programs(ecfg), oracle, max_examples=ctx.n(400, 16000))
